@@ -70,7 +70,7 @@ func writeEvidence(spec *Spec, tier string, seed int, results []*RunResult, wall
 		}
 		runs = append(runs, map[string]interface{}{
 			"run": r.Spec.Name, "description": r.Spec.Description, "package": r.Spec.Pkg, "entry": r.Spec.Entry,
-			"bounds":                    map[string]interface{}{"params": r.Tier.Params, "preemption_bound": r.Tier.Preempts, "scheduling_at_blocking_points": schedName(r.Tier.Sched), "scheduling_points_at_shared_memory": r.Tier.MemYield, "time_limit_s": r.Tier.TimeoutS, "step_budget_per_path": r.Tier.MaxSteps},
+			"bounds":                    map[string]interface{}{"params": r.Tier.Params, "preemption_bound": r.Tier.Preempts, "preemption_points_restricted_to": r.Tier.PreemptIn, "scheduling_at_blocking_points": schedName(r.Tier.Sched), "scheduling_points_at_shared_memory": r.Tier.MemYield, "time_limit_s": r.Tier.TimeoutS, "step_budget_per_path": r.Tier.MaxSteps},
 			"scaled_constants":          scaled,
 			"paths_explored":            r.Paths,
 			"paths_completed":           r.Done,
